@@ -35,6 +35,8 @@ def unmut(t):
         return ("idx", unmut(t[1]), unmut(t[2]))
     if t[0] == "struct":
         return ("struct", t[1], tuple((n, unmut(v)) for n, v in t[2]), unmut(t[3]) if t[3] is not None else None)
+    if t[0] == "shift":
+        return ("shift", unmut(t[1]), unmut(t[2]))
     return t
 
 
